@@ -47,6 +47,25 @@ PathDen(key) ==
          VF(<<S(<<74, 111, 104, 110>>), S(<<74, 97, 99, 111, 98>>), S(<<74, 111, 104, 110, 110, 121>>),
               S(<<74, 111, 104, 110>>), S(<<74, 97, 99, 111, 98>>)>>, TRUE)
 
+(* identifiers that name a resource type: at the start of a path they     *)
+(* filter by type (the implementation's rule, FPSyntax/DESIGN.md App. D:   *)
+(* the first such identifier seen by one visitor; right operands and index *)
+(* expressions get a fresh visitor, function ARGUMENTS share the visitor   *)
+(* of the enclosing expression).  In argument position the property's      *)
+(* reading is left open (Permitted = filter semantics or InvalidField), so *)
+(* the evaluator does not give a value there.                              *)
+ResourceTypeNames == {"Patient", "Observation"}
+RECURSIVE MentionsRootType(_), AnyMentions(_, _)
+AnyMentions(args, j) == j <= Len(args) /\ (MentionsRootType(args[j]) \/ AnyMentions(args, j + 1))
+MentionsRootType(t) ==
+  CASE t.k = "id" -> t.name \in ResourceTypeNames
+    [] t.k \in {"lit", "dollar", "var"} -> FALSE
+    [] t.k = "fn"   -> AnyMentions(t.args, 1)
+    [] t.k = "inv"  -> MentionsRootType(t.e) \/ MentionsRootType(t.m)
+    [] t.k = "idx"  -> MentionsRootType(t.e) \/ MentionsRootType(t.i)
+    [] t.k \in {"pol", "type"} -> MentionsRootType(t.e)
+    [] t.k = "bin"  -> MentionsRootType(t.l) \/ MentionsRootType(t.r)
+
 RECURSIVE IsPurePath(_), PathKey(_)
 IsPurePath(t) == \/ t.k = "id"
                  \/ (t.k = "inv" /\ t.m.k = "id" /\ IsPurePath(t.e))
@@ -206,7 +225,10 @@ Eval(t, this) ==
           ELSE IF t.v \in NumberVocab THEN V(<<I(NumVal(t.v))>>)
           ELSE IF t.v \in StringVocab THEN V(<<S(StrVal(t.v))>>)
           ELSE NA)
-    [] t.k = "id" -> IF this.root /\ t.name \in PathKeys THEN PathDen(t.name) ELSE NA
+    [] t.k = "id" -> IF this.root /\ t.name \in PathKeys THEN PathDen(t.name)
+                     (* a resource-type name is a type filter; on a focus that holds no resource it leaves nothing *)
+                     ELSE IF ~this.root /\ t.name \in ResourceTypeNames THEN VF(<<>>, TRUE)
+                     ELSE NA
     [] t.k = "dollar" -> IF t.name = "$this" /\ ~this.root THEN VF(this.items, this.fhir) ELSE NA
     [] t.k = "var" -> (CASE t.name = "vt" -> V(<<B(TRUE)>>) [] t.name = "vi" -> V(<<I(5)>>) [] OTHER -> NA)
     [] t.k = "pol" ->
@@ -235,12 +257,17 @@ Eval(t, this) ==
                      ELSE LET n == i.items[1].i
                           IN VF(IF n >= 0 /\ n < Len(a.items) THEN <<a.items[n + 1]>> ELSE <<>>, a.fhir))
     [] t.k = "inv" ->
-         (IF t.m.k = "id" THEN (IF this.root /\ IsPurePath(t) /\ PathKey(t) \in PathKeys THEN PathDen(PathKey(t)) ELSE NA)
+         (IF t.m.k = "id"
+          THEN (IF this.root /\ IsPurePath(t) /\ PathKey(t) \in PathKeys THEN PathDen(PathKey(t))
+                ELSE LET a == Eval(t.e, this)      \* a member of nothing is nothing
+                     IN IF a.k = "ok" /\ Len(a.items) = 0 /\ t.m.name \notin ResourceTypeNames THEN VF(<<>>, TRUE) ELSE NA)
           ELSE IF t.m.k = "dollar" THEN NA
+          ELSE IF AnyMentions(t.m.args, 1) THEN NA
           ELSE LET a == Eval(t.e, this)
                IN IF a.k # "ok" THEN a ELSE ApplyFn(t.m.name, t.m.args, a, this))
     [] t.k = "fn" ->
-         (IF t.name = "iif" /\ Len(t.args) = 3
+         (IF AnyMentions(t.args, 1) THEN NA
+          ELSE IF t.name = "iif" /\ Len(t.args) = 3
           THEN LET c == Eval(t.args[1], this)
                IN IF c.k # "ok" THEN c
                   ELSE LET v == Truth(c.items)
